@@ -436,6 +436,30 @@ def r15_6(run, model, mir):
                witness=f"edit `{fld}` inside a .core file: read_core accepts it and link uses the altered value")
 
 
+def r15_9(run, model):
+    run.rule("R15.9", "a build leaves a matching pair of artifacts: execute_build writes the interface file and the core file on every path "
+                      "that ends in Ok, and execute_check writes the interface it computed - no write is conditional on what is already on "
+                      "disk (a dependant reads the .interface, link reads the .core: an interface file left over from a diverging `check` "
+                      "next to a new core can never be linked against, however often the dependant is rebuilt)")
+    MAIN = "crates/compiler/src/main.rs"
+    for name, want in (("execute_build", 2), ("execute_check", 1)):
+        f = model.fn(name, MAIN)
+        par = S.Parents(f.body)
+        writes = [c for c in S.walk(f.body) if c["k"] == "Call" and (S.callee_segs(c) or [])[-2:] == ["fs", "write"]]
+        cond = [w for w in writes if any(a["k"] in ("If", "Match", "While", "For", "Closure", "Loop") for a in par.ancestors(w))]
+        paths = {S.norm_ws(run.facts.text(MAIN, w["args"][0]["sp"])) for w in writes if w["args"]}
+        run.ob("R15.9", f"{name}|writes {want} artifact file(s)", len(paths) >= want, site(MAIN, f.node["sp"]), f"fs::write targets: {sorted(paths)}")
+        run.ob("R15.9", f"{name}|every artifact write is unconditional", not cond, site(MAIN, (cond or [f.node])[0]["sp"]),
+               f"{len(writes)} write(s), {len(cond)} inside a conditional or loop",
+               witness="build Lib v1, build Main, edit Lib, check Lib, undo the edit, build Lib, build Main, link: Lib.interface keeps the v2 hash "
+                       "next to a v1 Lib.core; `expects interface_hash ... (rebuild Main)` for ever")
+
+
+def r15_8(run, model):
+    from rules import c13 as _c13
+    _c13.r13_4(run, _c13.Ctx(run, model))
+
+
 def run(run, model):
     mir = Mir(run.facts)
     reach = run.try_rule(r15_1, model, mir)
@@ -444,6 +468,11 @@ def run(run, model):
     run.try_rule(r15_4, model)
     run.try_rule(r15_5, model)
     run.try_rule(r15_6, model, mir)
+    # a hash-ordered container inside what is hashed makes the interface hash differ between two builds of the same sources:
+    # body-only rebuilds change it and unaltered artifacts are refused (shared with C13 R13.4)
+    from rules import c13 as _c13
+    run.try_rule(r15_8, model)
+    run.try_rule(r15_9, model)
     from rules import c03
     run.rule("R15.7", "a changed trait bound changes the interface hash: the hashed exports are FnSchemes, so the bounds of a generic item have "
                       "to be part of FnScheme (shared with C03 R03.10) - today `fn show_all[T: Show]` and `fn show_all[T: Debug]` export the "
